@@ -44,6 +44,9 @@ func quote(content bytes.Bytes, position bytes.Index, lineBeginning bytes.Index,
 
 // LineNumber return 0 if cannot determine the line number, or 1+ if it can
 func LineNumber(content bytes.Bytes, position bytes.Index, nl byte) bytes.Index {
+	if len(content) == 0 {
+		return 1
+	}
 	i := position
 	max := bytes.Index(len(content) - 1)
 	if i > max {
@@ -67,6 +70,9 @@ func LineNumber(content bytes.Bytes, position bytes.Index, nl byte) bytes.Index 
 
 // LineBeginning Before calling this method, you must run the e.preparation()
 func LineBeginning(content bytes.Bytes, position bytes.Index, nl byte) bytes.Index {
+	if len(content) == 0 {
+		return 0
+	}
 	i := position
 	max := bytes.Index(len(content) - 1)
 	if i > max {
@@ -90,6 +96,9 @@ func LineBeginning(content bytes.Bytes, position bytes.Index, nl byte) bytes.Ind
 
 func LineEnd(content bytes.Bytes, position bytes.Index, nl byte) bytes.Index {
 	i := position
+	if i > bytes.Index(len(content)) {
+		i = bytes.Index(len(content))
+	}
 	for i < bytes.Index(len(content)) {
 		c := content[i]
 		if c == nl {
